@@ -63,6 +63,9 @@ def run_scenario(case, chooser=None, trace=False, record=False):
                 if case.get("hook_recloses"):
                     conn.close()             # closing again - even from inside the hook - must be a no-op
 
+            def exposed_boom(self):
+                raise ValueError("boom")
+
             def exposed_echo(self, x):
                 return x
 
@@ -83,7 +86,20 @@ def run_scenario(case, chooser=None, trace=False, record=False):
 
         sa, sb = Svc("A"), Svc("B")
         cfg = {"sync_request_timeout": wl.get("timeout", 30)}
-        A = sa._connect(Channel(link.a), cfg)
+        cfg_a = dict(cfg)
+        bc = case.get("before_closed")
+        if bc:
+            # the application's last-words hook: fine / fails locally / fails in a remote call (close() may then raise what the
+            # hook raised, but the connection must end up closed and finalised all the same)
+            def before_closed(root, _bc=bc):
+                if _bc == "raises":
+                    raise ValueError("before_closed hook failed")
+                if _bc == "remote-raises":
+                    root.boom()
+                else:
+                    root.echo("bye")
+            cfg_a["before_closed"] = before_closed
+        A = sa._connect(Channel(link.a), cfg_a)
         B = sb._connect(Channel(link.b), cfg)
         conns = {"A": A, "B": B}
         streams = {"A": link.a, "B": link.b}
@@ -206,7 +222,7 @@ def run_scenario(case, chooser=None, trace=False, record=False):
             mode = closing["mode"]
             R["close_called"] = True
             if mode == "a-first":
-                A.close()
+                _safe(A.close)
             elif mode == "b-first":
                 k.spawn(lambda: B.close(), name="closeB")
                 k.sleep(0.01)
@@ -221,8 +237,8 @@ def run_scenario(case, chooser=None, trace=False, record=False):
                 if r:
                     attempt("collect-out", "o", lambda: r[0].value)
             elif mode == "twice":
-                A.close()
-                A.close()
+                _safe(A.close)
+                _safe(A.close)
             elif mode == "a-overlap":
                 # a second thread closes the SAME connection while the first close() is inside its transport write
                 k.spawn(lambda: _safe(A.close), name="closeA2")
@@ -234,6 +250,8 @@ def run_scenario(case, chooser=None, trace=False, record=False):
             except sk.KernelAbort:
                 raise
             except BaseException as ex:
+                if isinstance(ex, ValueError) and case.get("before_closed") in ("raises", "remote-raises"):
+                    return              # the hook's own failure may surface from close()
                 R["problems"].append(("close-raised", type(ex).__name__, str(ex)[:100]))
 
         k.spawn(serve_b, name="serve-B", daemon=True)
@@ -358,6 +376,8 @@ def judge(case, R, rec):
         nontrivial = "inside" in fault.get("cls", "") or wl["w"] == "nested" or (fired and fired[0] == "write")
     if closing:
         classes.append("close:" + closing["mode"])
+        if case.get("before_closed"):
+            classes.append("before_closed-hook:" + case["before_closed"])
         nontrivial = closing["mode"] in ("both", "outstanding", "b-first", "a-overlap")
     for o in R["outcomes"]:
         classes.append("outcome:" + o[1])
@@ -384,7 +404,7 @@ def close_cases():
         "part": st.just("close"), "workload": st.sampled_from([w for w in WORKLOADS if not w.get("loop")]),
         "close": st.fixed_dictionaries({"mode": st.sampled_from(["a-first", "b-first", "both", "both", "outstanding", "twice",
                                                                   "a-overlap", "a-overlap"])}),
-        "hook_recloses": st.booleans(),
+        "hook_recloses": st.booleans(), "before_closed": st.sampled_from([None, None, "ok", "raises", "remote-raises"]),
         "preempt": st.lists(st.tuples(st.integers(0, 40), st.integers(0, 3)).map(list), max_size=4),
         "np": st.lists(st.integers(0, 3), max_size=8)})
 
